@@ -577,7 +577,7 @@ def ref_rename_met(R, A, h, new):
     if new in R.mets:
         raise RefRaise("ValueError")
     R.mets = {(new if k == old else k): v for k, v in R.mets.items()}
-    for r in R.rxns.values():
+    for r in list(R.rxns.values()) + [rx for _, rx in R.detached.values()]:   # a removed reaction still holds the same object
         if old in r["st"]:
             r["st"][new] = r["st"].pop(old)
     for d in R.groups.values():
@@ -807,14 +807,14 @@ def real_rm_rxn(S, handles, orphans, how):
     objs = []
     for h in handles:
         i = S.rid(h)
-        if i in S.model.reactions:
+        if i in S.model.reactions and not any(S.model.reactions.get_by_id(i) is o for _, o in objs):
             objs.append((h, S.model.reactions.get_by_id(i)))
     if how == "single":
         if len(handles) != 1 or not objs:
             raise Skip("single form needs one present reaction")
         arg = objs[0][1]
     elif how == "id":
-        arg = [S.rid(h) for h in handles]
+        arg = list(dict.fromkeys(S.rid(h) for h in handles))
     else:
         if len(objs) != len(handles):
             raise Skip("object form needs present reactions")
@@ -840,7 +840,11 @@ def real_add_met(S, specs, single):
 
 
 def real_rm_met(S, handles, destructive):
-    objs = [S.met(h) for h in handles]
+    objs = []
+    for h in handles:
+        m = S.met(h)
+        if not any(m is o for o in objs):
+            objs.append(m)
     S.model.remove_metabolites(objs if len(objs) > 1 else objs[0], destructive=destructive)
 
 
@@ -853,7 +857,8 @@ def real_add_boundary(S, h, typ, rid, lb, ub):
         met = cobra.Metabolite(i, compartment=COMP[i])
     else:
         raise Skip("unknown metabolite")
-    if typ == "exchange" and set(S.model.compartments) - {"c"} != {"e"}:
+    if typ == "exchange" and (set(S.model.compartments) - {"c"} != {"e"} or any(not r.compartments for r in S.model.boundary)):
+        # (find_external_compartment raises IndexError when a boundary reaction's only metabolite has no compartment)
         raise Skip("external compartment not determined by its name")
     kw = {}
     if rid is not None:
@@ -1560,6 +1565,8 @@ DIRECTED = [
     ("B1", "glpk", [["rm_rxn", ["R0"], False, "obj"], ["solver", "glpk_exact"]]),
     ("B1", "glpk", [["rm_rxn", ["R1"], True, "id"], ["enter"], ["obj_coef", "R2", 2], ["exit"]]),
     ("B1", "glpk_exact", [["rm_rxn", ["R0"], False, "obj"], ["readd", "R0"], ["solver", "glpk"]]),
+    ("B1", "glpk_exact", [["rm_rxn", ["R0"], False, "obj"], ["merge", "ra", None, True, "left"], ["readd", "R0"]]),
+    ("B0", "glpk", [["rm_rxn", ["R0"], False, "obj"], ["rename_met", "b_c", "bx_c"], ["readd", "R0"]]),
     ("B1", "glpk", [["rm_met", ["b_c"], True], ["merge", "rb", "p_", True, "left"]]),
     # merge: rows of the right model copied as if they were custom constraints; discarded reaction copies stay referenced
     ("B0", "glpk", [["rename_met", "b_c", "bx_c"], ["merge", "rb", None, True, "left"]]),
@@ -1835,11 +1842,10 @@ def plan(tier, seed):
         rnd = ([b0, b1, b2] + gen_bases(seed, 5), 64, 80, 6)
     else:
         ex = [(b0, "glpk", "core", 3, 0), (b1, "glpk_exact", "core", 3, 0), (b0, "glpk_exact", "core", 3, 1)]
-        for b in (b0, b1, b2):
-            for sv in ("glpk", "glpk_exact"):
-                ex.append((b, sv, "full", 2, 0))
+        for b, sv in ((b0, "glpk"), (b0, "glpk_exact"), (b1, "glpk"), (b1, "glpk_exact"), (b2, "glpk")):
+            ex.append((b, sv, "full", 2, 0))
         ex += [(b0, "glpk", "full", 2, 1), (b1, "glpk_exact", "quick", 2, 2)]
-        rnd = ([b0, b1, b2] + gen_bases(seed, 24), 256, 250, 8)
+        rnd = ([b0, b1, b2] + gen_bases(seed, 24), 192, 250, 8)
     return ex, rnd
 
 
